@@ -170,16 +170,55 @@ func c08TableOp(t *routing.Table, f []string) string {
 	return "bad-op"
 }
 
+var c08Hist []string // the case so far (replayed on fresh tables by the race op)
+var c08Self uint64 = 1
+
 func c08Run(line string) string {
 	f := fields(line)
 	if f[0] == "reset" {
-		c08Tab = routing.NewTable(c08ID(c08U(f[1])))
+		c08Self = c08U(f[1])
+		c08Tab = routing.NewTable(c08ID(c08Self))
+		c08Hist = nil
 		return "ok"
 	}
 	if c08Tab == nil {
-		c08Tab = routing.NewTable(c08ID(1))
+		c08Tab = routing.NewTable(c08ID(c08Self))
 	}
+	if f[0] == "race" {
+		hist := c08Hist
+		out := c08Race(line, false, func() (func(string), func() string, func()) {
+			t := routing.NewTable(c08ID(c08Self))
+			for _, h := range hist {
+				c08Do(t, fields(h))
+			}
+			return func(op string) { c08Do(t, fields(op)) }, func() string { return c08Dump(t) }, func() { c08Tab = t }
+		})
+		c08Hist = append(c08Hist, c08RaceOps(line)...)
+		return out
+	}
+	c08Hist = append(c08Hist, line)
 	return c08TableOp(c08Tab, f)
+}
+
+// c08Do executes a mutating op without printing (lookups are no-ops here).
+func c08Do(t *routing.Table, f []string) {
+	switch f[0] {
+	case "add":
+		t.AddRoute(&routing.Route{Network: c08Net(f[1], f[2], f[3]), NextHop: c08ID(c08U(f[4])), OriginAgent: c08ID(c08U(f[5])),
+			Metric: uint16(c08U(f[6])), Sequence: c08U(f[7]), Path: c08Path(f[8])})
+	case "rm":
+		t.RemoveRoute(c08Net(f[1], f[2], f[3]), c08ID(c08U(f[4])))
+	case "disc":
+		t.RemoveRoutesFromPeer(c08ID(c08U(f[1])))
+	case "age":
+		routing.C08Age(t, time.Duration(c08U(f[1]))*time.Hour)
+	case "clean":
+		t.CleanupStaleRoutes(time.Duration(c08U(f[1]))*time.Hour + 30*time.Minute)
+	case "clear":
+		t.Clear()
+	case "look":
+		t.Lookup(net.IP(unhexTok(f[1])))
+	}
 }
 
 // ---------------------------------------------------------------- generator
@@ -447,8 +486,54 @@ func c08Mix(seed int64) int64 {
 	return int64(z ^ (z >> 31))
 }
 
+// c08GenRace: cases around the concurrency stress op. Some state first, then goroutines doing the
+// same first-time add / the same origin through several neighbours / different origins (one
+// possible outcome: the case goes on with a withdraw and lookups), or conflicting add / remove /
+// disconnect / cleanup (several admissible outcomes: the case ends there).
+func c08GenRace(w *bufio.Writer, r *rng) {
+	fmt.Fprintln(w, "reset 1")
+	pfx := []string{"c0a83200 24 32", "0a000000 8 32", "0a010203 8 32", "20010db8000000000000000000000000 32 128"}
+	p := pfx[r.intn(len(pfx))]
+	for i := 0; i < r.intn(4); i++ {
+		fmt.Fprintf(w, "add %s %d %d %d 1 %d\n", pfx[r.intn(len(pfx))], 2+r.intn(3), 6+r.intn(3), r.intn(5), 6+r.intn(3))
+	}
+	o := 2 + r.intn(3)
+	switch r.intn(5) {
+	case 0: // the same advertisement, first time, n goroutines
+		fmt.Fprintf(w, "race %d | add %s %d %d %d 1 %d\n", r.pick(2, 4, 8), p, 2+r.intn(3), o, 1+r.intn(5), o)
+	case 1: // one origin through several neighbours with different hop counts
+		fmt.Fprintf(w, "race 1 | add %s 2 %d 2 1 2.%d | add %s 3 %d 3 1 3.%d | add %s 4 %d 4 1 4.%d | add %s 5 %d 5 1 5.%d\n", p, o, o, p, o, o, p, o, o, p, o, o)
+	case 2: // different origins, distinct metrics
+		fmt.Fprintf(w, "race 2 | add %s 2 2 1 1 2 | add %s 3 3 2 1 3 | add %s 4 4 3 1 4\n", p, p, p)
+	case 3: // conflicting: add vs withdraw vs disconnect
+		fmt.Fprintf(w, "add %s 2 %d 3 1 %d\n", p, o, o)
+		fmt.Fprintf(w, "race 2 | add %s 3 %d 1 2 %d | rm %s %d\n", p, o, o, p, o)
+		return
+	default:
+		fmt.Fprintf(w, "add %s 2 %d 3 1 %d\nage 2\n", p, o, o)
+		fmt.Fprintf(w, "race 1 | add %s 2 %d 3 2 %d | clean 1 | disc 2 | add %s 3 7 0 1 7\n", p, o, o, p)
+		return
+	}
+	addr := "c0a83207"
+	if strings.HasPrefix(p, "0a") {
+		addr = "0a090909"
+	} else if strings.HasPrefix(p, "2001") {
+		addr = "20010db8000000000000000000000007"
+	}
+	fmt.Fprintf(w, "look %s\nhas %s %d\nrm %s %d\nlook %s\nhas %s %d\nsize\n", addr, p, o, p, o, addr, p, o)
+}
+
 func c08Gen(w *bufio.Writer, seed int64, tier string) {
 	r := newRng(c08Mix(seed))
+	// concurrency cases: a few in quick, more in thorough and in the failing-input search (vlib's
+	// search uses seeds >= 1000)
+	races := 8
+	if tier == "thorough" || seed >= 1000 {
+		races = 60
+	}
+	for c := 0; c < races; c++ {
+		c08GenRace(w, r)
+	}
 	cases, nops := 200, 40
 	if tier == "thorough" {
 		cases, nops = 5000, 50
